@@ -32,9 +32,10 @@ def ob_stop(a: int, b: int, c: int, hold: int) -> bool:
         assume(hold == 0 or 3 <= hold < 65536)
     else:
         hold = None
-    w = S.in_state(state, dict(P.get('cfg', {})), hold=hold, closing=P.get('closing', False))
+    w = S.in_state(state, dict(P.get('cfg', {})), hold=hold, closing=P.get('closing', False),
+                   old_closing=P.get('old_closing', False), old_closed=P.get('old_closed', False))
     had_conn = w.fsm.protocol is not None and w.fsm.protocol.transport is not None and \
-        w.fsm.protocol.transport.connected and not w.fsm.protocol.transport.disconnecting
+        bool(w.fsm.protocol.transport.connected) and not w.fsm.protocol.transport.disconnecting
     cur_t = w.fsm.protocol.transport if w.fsm.protocol is not None else None
     mark = w.mark()
     w.ev_manual_stop()
@@ -77,7 +78,8 @@ def ob_start(a: int, b: int, c: int, hold: int) -> bool:
     else:
         hold = None
     w = S.in_state(state, dict(P.get('cfg', {})), hold=hold, allow_auto=P.get('auto', True),
-                   closing=P.get('closing', False))
+                   closing=P.get('closing', False), old_closing=P.get('old_closing', False),
+                   old_closed=P.get('old_closed', False))
     timers_before = {n: w.timer_active(n) for n in w.timers()}
     mark = w.mark()
     w.ev_manual_start()
@@ -123,6 +125,16 @@ def obligations(tier, seed):
     for state in (S.IDLE, S.CONNECT, S.OPENSENT, S.OPENCONFIRM, S.ESTABLISHED):
         out.append(ob('C13/stop/%s' % S.STATE_NAMES[state], 'ob_stop', {'state': state}, covers=['stopped']))
         out.append(ob('C13/start/%s' % S.STATE_NAMES[state], 'ob_start', {'state': state}, covers=['started']))
+    # the same with an earlier connection in the history (the FSM still points at its protocol object): still
+    # closing, or completely over
+    for state in (S.IDLE, S.CONNECT, S.OPENSENT, S.ESTABLISHED):
+        for hist in ('old_closing', 'old_closed'):
+            if state == S.IDLE and hist == 'old_closing':
+                continue
+            out.append(ob('C13/stop/%s/%s' % (S.STATE_NAMES[state], hist), 'ob_stop', {'state': state, hist: True},
+                          covers=['stopped']))
+            out.append(ob('C13/start/%s/%s' % (S.STATE_NAMES[state], hist), 'ob_start', {'state': state, hist: True},
+                          covers=['started']))
     out.append(ob('C13/stop/IDLE-closing', 'ob_stop', {'state': S.IDLE, 'closing': True}, covers=['stopped']))
     out.append(ob('C13/start/IDLE-stopped', 'ob_start', {'state': S.IDLE, 'auto': False}, covers=['started']))
     out.append(ob('C13/start/IDLE-stopped-closing', 'ob_start', {'state': S.IDLE, 'auto': False, 'closing': True},
